@@ -90,12 +90,13 @@ macro_rules! ctr_alias_case {
     };
 }
 
-// ---- quick: one block size per flavour; nonce bytes outside the counter field where possible
+// ---- quick: one block size per flavour, preferring sizes other than 16 (the repository's own AES
+// vectors already sit at 16) and multi-chunk nonces; harness tier = name prefix, not position in this list
 ctr_core_case!(ctr32be_b8_w2_n3, 64, Ctr32BE, spec::CTR32BE, U8, 8, u32, U2, 3);
-ctr_core_case!(ctr32le_b8_w2_n3, 64, Ctr32LE, spec::CTR32LE, U8, 8, u32, U2, 3);
-ctr_core_case!(ctr64be_b16_w2_n3, 64, Ctr64BE, spec::CTR64BE, U16, 16, u64, U2, 3);
-ctr_core_case!(ctr64le_b16_w2_n3, 64, Ctr64LE, spec::CTR64LE, U16, 16, u64, U2, 3);
-ctr_core_case!(ctr128be_b16_w2_n3, 64, Ctr128BE, spec::CTR128BE, U16, 16, u128, U2, 3);
+ctr_core_case!(t_ctr32le_b8_w2_n3, 64, Ctr32LE, spec::CTR32LE, U8, 8, u32, U2, 3);
+ctr_core_case!(t_ctr64be_b16_w2_n3, 64, Ctr64BE, spec::CTR64BE, U16, 16, u64, U2, 3);
+ctr_core_case!(t_ctr64le_b16_w2_n3, 64, Ctr64LE, spec::CTR64LE, U16, 16, u64, U2, 3);
+ctr_core_case!(t_ctr128be_b16_w2_n3, 64, Ctr128BE, spec::CTR128BE, U16, 16, u128, U2, 3);
 ctr_core_case!(ctr128le_b16_w2_n3, 64, Ctr128LE, spec::CTR128LE, U16, 16, u128, U2, 3);
 ctr_alias_case!(alias_ctr32be_b8_w1_l17, 64, Ctr32BE, spec::CTR32BE, U8, 8, U1, 17);
 ctr_alias_case!(alias_ctr64le_b8_w2_l17, 64, Ctr64LE, spec::CTR64LE, U8, 8, U2, 17);
@@ -105,15 +106,15 @@ ctr_alias_case!(alias_ctr128be_b16_w1_l33, 80, Ctr128BE, spec::CTR128BE, U16, 16
 ctr_core_case!(t_ctr32be_b4_w1_n3, 64, Ctr32BE, spec::CTR32BE, U4, 4, u32, U1, 3);
 ctr_core_case!(t_ctr32le_b4_w3_n4, 64, Ctr32LE, spec::CTR32LE, U4, 4, u32, U3, 4);
 ctr_core_case!(t_ctr32be_b12_w2_n3, 64, Ctr32BE, spec::CTR32BE, U12, 12, u32, U2, 3);
-ctr_core_case!(t_ctr32le_b12_w2_n3, 64, Ctr32LE, spec::CTR32LE, U12, 12, u32, U2, 3);
+ctr_core_case!(ctr32le_b12_w2_n3, 64, Ctr32LE, spec::CTR32LE, U12, 12, u32, U2, 3);
 ctr_core_case!(t_ctr32be_b16_w4_n5, 100, Ctr32BE, spec::CTR32BE, U16, 16, u32, U4, 5);
 ctr_core_case!(t_ctr32le_b16_w1_n2, 64, Ctr32LE, spec::CTR32LE, U16, 16, u32, U1, 2);
 ctr_core_case!(t_ctr32be_b20_w2_n3, 80, Ctr32BE, spec::CTR32BE, U20, 20, u32, U2, 3);
 ctr_core_case!(t_ctr64be_b8_w1_n3, 64, Ctr64BE, spec::CTR64BE, U8, 8, u64, U1, 3);
-ctr_core_case!(t_ctr64le_b8_w3_n4, 64, Ctr64LE, spec::CTR64LE, U8, 8, u64, U3, 4);
-ctr_core_case!(t_ctr64be_b24_w2_n3, 100, Ctr64BE, spec::CTR64BE, U24, 24, u64, U2, 3);
+ctr_core_case!(ctr64le_b8_w3_n4, 64, Ctr64LE, spec::CTR64LE, U8, 8, u64, U3, 4);
+ctr_core_case!(ctr64be_b24_w2_n3, 100, Ctr64BE, spec::CTR64BE, U24, 24, u64, U2, 3);
 ctr_core_case!(t_ctr64le_b24_w2_n3, 100, Ctr64LE, spec::CTR64LE, U24, 24, u64, U2, 3);
-ctr_core_case!(t_ctr128be_b32_w2_n3, 120, Ctr128BE, spec::CTR128BE, U32, 32, u128, U2, 3);
+ctr_core_case!(ctr128be_b32_w2_n3, 120, Ctr128BE, spec::CTR128BE, U32, 32, u128, U2, 3);
 ctr_core_case!(t_ctr128le_b32_w2_n3, 120, Ctr128LE, spec::CTR128LE, U32, 32, u128, U2, 3);
 ctr_core_case!(t_ctr128be_b16_w3_n4, 80, Ctr128BE, spec::CTR128BE, U16, 16, u128, U3, 4);
 ctr_core_case!(t_ctr128le_b16_w1_n2, 64, Ctr128LE, spec::CTR128LE, U16, 16, u128, U1, 2);
